@@ -112,7 +112,7 @@ class C07(core.Check):
     prop = "C07"
     flavours = ["asan"]
     rule = ("per sample file (all 4 lead checksum types): digest string with EVERY position x all 256 byte values (exhaustive), upper/lower/mixed case, "
-            "wrong lengths, pinned-vs-actual type grid, length pins (exact, +-1, 0, 2^63-1, negative), both setter orders, validate_lead followed by "
+            "wrong lengths, a wrong pin followed by a refused setter call and zck_clear_error (the pin must stay in force), pinned-vs-actual type grid, length pins (exact, +-1, 0, 2^63-1, negative), both setter orders, validate_lead followed by "
             "read_lead/read_header on the same context, pins taken from F0 presented with F1 (other file, re-sealed mutated header, mutated header with old "
             "checksum). distinct = (class, file, op sequence)")
     assumptions = ["expected verdicts from Python hex/bytes semantics and the reference parse of each image"]
@@ -191,6 +191,13 @@ class C07(core.Check):
             add("all-pins", name, [T, "D" + hx.hex(), "L%d" % total, "v", "l", "h"], [1, 1, 1, 1, 1, 1 if ok else 0])
             add("all-pins", name, [T, "D" + wrongd.hex(), "L%d" % total, "v", "l"], [1, 1, 1, 0, 0], "digest wrong in last nibble")
             add("all-pins", name, [T, "D" + hx.hex(), "L%d" % (total + 1), "v", "l"], [1, 1, 1, 0, 0], "length wrong")
+            # a pin stays in force when a later setter call is refused (and the caller clears the error and carries on)
+            for bad in (hx[:-1], hx + b"0", b"", hx[:n // 2], b"zz" + hx[2:]):
+                add("pin-survives-refused-set", name, [T, "D" + wrongd.hex(), "D" + bad.hex(), "c", "v", "l"], [1, 1, 0, None, 0, 0], "second value %r refused" % bad[:8])
+                add("pin-survives-refused-set", name, [T, "D" + wrongd.hex(), "D" + bad.hex(), "c", "l", "h"], [1, 1, 0, None, 0, None])
+                add("pin-survives-refused-set", name, [T, "D" + hx.hex(), "D" + bad.hex(), "c", "D" + wrongd.hex(), "c", "v", "l"], [1, 1, 0, None, None, None, 0, 0])
+            add("pin-survives-refused-set", name, [T, "D" + wrongd.hex(), "L-1", "c", "v", "l"], [1, 1, 0, None, 0, 0], "refused length pin")
+            add("pin-survives-refused-set", name, [T, "D" + wrongd.hex(), "T-1", "c", "v", "l"], [1, 1, 0, None, 0, 0], "refused type pin")
             # order: digest before type must be refused; type after digest must be refused
             add("order", name, ["D" + hx.hex()], [0], "digest before type")
             add("order", name, [T, "D" + hx.hex(), T], [1, 1, 0], "type after digest")
